@@ -220,19 +220,38 @@ func AddStandardFilters(fd FilterDictionary) { //nolint: gocyclo
 	fd.AddFilter("truncate", func(s string, length func(int) int, ellipsis func(string) string) string {
 		n := length(50)
 		el := ellipsis("...")
-		// runes aren't bytes; don't use slice
-		re := regexp.MustCompile(fmt.Sprintf(`^(.{%d})..{%d,}`, n-len(el), len(el)))
-		return re.ReplaceAllString(s, `$1`+el)
+		// count characters, not bytes
+		ss, els := []rune(s), []rune(el)
+		if len(ss) <= n {
+			return s
+		}
+		keep := n - len(els)
+		if keep < 0 {
+			keep = 0
+		}
+		return string(ss[:keep]) + el
 	})
 	fd.AddFilter("truncatewords", func(s string, length func(int) int, ellipsis func(string) string) string {
 		el := ellipsis("...")
 		n := length(15)
-		re := regexp.MustCompile(fmt.Sprintf(`^(?:\s*\S+){%d}`, n))
-		m := re.FindString(s)
-		if m == "" {
+		// find the end of the n-th word
+		words, inWord, end := 0, false, -1
+		for i, r := range s {
+			if unicode.IsSpace(r) {
+				if inWord && words == n {
+					end = i
+					break
+				}
+				inWord = false
+			} else if !inWord {
+				inWord = true
+				words++
+			}
+		}
+		if n <= 0 || end < 0 || strings.TrimSpace(s[end:]) == "" {
 			return s
 		}
-		return m + el
+		return s[:end] + el
 	})
 	fd.AddFilter("upcase", func(s, suffix string) string {
 		return strings.ToUpper(s)
